@@ -49,6 +49,18 @@ def validate_text(ctx, schema, text, witness):
     except Exception as e:
         ctx.violation("validate-raises:%s" % type(e).__name__, witness, repr(e)[:300])
         return None
+    # the verdict is a function of the document, not of how it was parsed: a tree without source positions
+    # (no_location=True) gets the same verdict
+    try:
+        res_noloc = validate_ast(schema, parse(text, allow_type_system=True, no_location=True))
+        ctx.count("validated_without_locations")
+        if bool(res_noloc.errors) != bool(res.errors):
+            ctx.violation("verdict-changes-without-source-positions", witness,
+                          "with positions: %r; without: %r" % ([str(e) for e in res.errors][:2], [str(e) for e in res_noloc.errors][:2]))
+            return None
+    except Exception as e:
+        ctx.violation("validate-raises:%s:no_location" % type(e).__name__, witness, repr(e)[:300])
+        return None
     if not res.errors:
         return True, {}, []
     try:
